@@ -128,7 +128,7 @@ func init() {
 			"Output and the tracer event log of each render are compared with an independent interpreter. distinct_nontrivial = distinct sources containing at least one loop",
 		Assumptions: []string{
 			"one scope per loop (all passes share it), as the statement's 'block' for a loop",
-			"bodies hold at least one byte of text; @for loops whose model run needs more than 14 passes are not generated",
+			"@for loops whose model run needs more than 14 passes are not generated",
 		},
 		Setup: func(c *core.Ctx) {
 			if err := registerTracers(); err != nil {
@@ -397,6 +397,17 @@ func forSpecials() []model.Stmt {
 		Post: model.Print{E: model.Postfix{Op: "++", X: i}}, Body: body, Else: []model.Stmt{model.Text{S: " never"}}})
 	out = append(out, model.For{Init: &model.Assign{Name: "i", E: lit(5)}, Cond: model.Binary{Op: "<", L: i, R: lit(3)},
 		Post: model.Print{E: model.Postfix{Op: "++", X: i}}, Body: body})
+	// empty bodies, with and without @else
+	out = append(out, model.Each{Var: "v", Arr: intArr(1, 2), Body: []model.Stmt{}, Else: []model.Stmt{model.Text{S: " never"}}})
+	out = append(out, model.Each{Var: "v", Arr: model.ArrLit{}, Body: []model.Stmt{}, Else: []model.Stmt{model.Text{S: " empty"}}})
+	out = append(out, model.Each{Var: "v", Arr: intArr(1, 2), Body: []model.Stmt{}})
+	out = append(out, model.Each{Var: "v", Arr: model.ArrLit{}, Body: []model.Stmt{model.Text{S: "[x]"}}, Else: []model.Stmt{}})
+	out = append(out, model.For{Init: &model.Assign{Name: "i", E: lit(0)}, Cond: model.Binary{Op: "<", L: i, R: lit(2)},
+		Post: model.Print{E: model.Postfix{Op: "++", X: i}}, Body: []model.Stmt{}, Else: []model.Stmt{model.Text{S: " never"}}})
+	out = append(out, model.For{Init: &model.Assign{Name: "i", E: lit(3)}, Cond: model.Binary{Op: "<", L: i, R: lit(2)},
+		Post: model.Print{E: model.Postfix{Op: "++", X: i}}, Body: []model.Stmt{}, Else: []model.Stmt{model.Text{S: " never-ran"}}})
+	out = append(out, model.For{Init: &model.Assign{Name: "i", E: lit(0)}, Cond: model.Binary{Op: "<", L: i, R: lit(2)},
+		Post: model.Print{E: model.Postfix{Op: "++", X: i}}, Body: []model.Stmt{}})
 	// every pass is skipped by @continue: @else must still not render
 	out = append(out, model.For{Init: &model.Assign{Name: "i", E: lit(0)}, Cond: model.Binary{Op: "<", L: i, R: lit(3)},
 		Post: model.Print{E: model.Postfix{Op: "++", X: i}}, Body: []model.Stmt{model.Continue{}, model.Text{S: "[x]"}}, Else: []model.Stmt{model.Text{S: " never"}}})
